@@ -213,7 +213,7 @@ theorem coll_update_items (cfg : Cfg M K R) (s : CState M R) (id : String) (msg 
       (Coll.update cfg s id msg wr).2.items =
         (getAndUpdate cfg.ops (updGet cfg wr) (changeFn cfg.ops wr (fieldUpdater cfg wr) msg) (updSave cfg wr)
           { st := s, id := updKey cfg wr id, created := none, idCalls := [], createdCalls := 0 }).2.st.items := by
-    unfold Coll.update
+    unfold Coll.update Coll.updateAt
     simp only []
     split
     · exact Or.inl rfl
